@@ -21,6 +21,8 @@ def pytest_configure(config):
     from rv import contracts
     contracts.install_algebra(CTX)
     contracts.install_events(CTX)
+    contracts.install_helpers(CTX, ['flat', 'vert_comb', 'diag_comb', 'add_linear', 'index_array',
+                                    'rso_broadcast'])
 
 
 def pytest_terminal_summary(terminalreporter):
